@@ -92,7 +92,50 @@ def oracle(case, notes=None):
     return None
 
 
+SCIPY_FAMS = [("gumbel_r", {}, {"loc": 2.0, "scale": 1.5}), ("rayleigh", {}, {"loc": 0.0, "scale": 2.0}),
+              ("weibull_min", {"f_loc": 0}, {"c": 1.6, "loc": 0.0, "scale": 2.5}), ("gamma", {"f_loc": 0}, {"a": 2.5, "loc": 0.0, "scale": 1.2}),
+              ("gengamma", {"f_loc": 0}, {"a": 2.0, "c": 1.5, "loc": 0.0, "scale": 1.5}), ("weibull_min", {}, {"c": 1.8, "loc": 0.5, "scale": 2.0})]
+
+
+def scipy_oracle(fam, fixed, th, n, seed, c):
+    """ScipyDistribution subclasses: likelihood after fit vs start / generating parameters, scale equivariance"""
+    dm = D.dist_module()
+    sd = getattr(sts, fam)
+    Cls = type("My_" + fam, (dm.ScipyDistribution,), {"scipy_dist_name": fam})
+    names = list(th)
+    x = sd.rvs(*[th[k] for k in names], size=n, random_state=seed)
+    sig = {"cls": "ScipyDistribution", "family": fam, "fixed": "+".join(sorted(fixed))}
+
+    def ll(par, data):
+        with np.errstate(all="ignore"):
+            return float(np.sum(sd.logpdf(data, *[par[k] for k in names])))
+    d = Cls(**fixed)
+    start = {k: float(d.parameters[k]) for k in names}
+    d.fit(x)
+    fit = {k: float(d.parameters[k]) for k in names}
+    if not all(np.isfinite(v) for v in fit.values()):
+        return (dict(sig, clause="nonfinite"), "fitted parameters not finite: %r" % fit)
+    l_fit, l_start, l_true = ll(fit, x), ll(start, x), ll(th, x)
+    tol = 1e-3 + 1e-6 * abs(l_fit)
+    if l_fit < l_start - tol:
+        return (dict(sig, clause="loses-vs-start"), "log-likelihood %.4f after fit < %.4f at the start parameters" % (l_fit, l_start))
+    if l_fit < l_true - max(tol, 0.02 * abs(l_true)) and len(names) - len(fixed) <= 2:
+        return (dict(sig, clause="loses-vs-true"), "log-likelihood %.4f after fit is far below %.4f at the generating parameters (fit=%r)" % (l_fit, l_true, fit))
+    d2 = Cls(**{k: (v * c if k in ("f_loc", "f_scale") else v) for k, v in fixed.items()})
+    d2.fit(c * x)
+    fit_c = {k: float(d2.parameters[k]) for k in names}
+    tr = {k: (v * c if k in ("loc", "scale") else v) for k, v in fit.items()}
+    if abs(ll(fit_c, c * x) - ll(tr, c * x)) > 0.05 + 1e-3 * abs(l_fit) and len(names) - len(fixed) <= 2:
+        return (dict(sig, clause="equivariance"), "fit(c x) = %r but the transformed fit(x) is %r (c=%r)" % (fit_c, tr, c))
+    return None
+
+
 def replay(ctx, case):
+    if case.get("scipydist"):
+        o = scipy_oracle(case["family"], case["fixed"], case["theta"], case["n"], case["seed"], case["c"])
+        if o:
+            print("  ", o[1])
+        return o is not None
     o = oracle(case)
     if o:
         print("  ", o[1])
@@ -116,6 +159,12 @@ def run(ctx):
             cases.append({"cls": cname, "theta": th, "n": rng.choice([100, 300, 1000] if ctx.quick() else [100, 500, 2000, 5000]),
                           "seed": rng.randrange(10 ** 6), "c": rng.choice([0.5, 0.8, 1.5, 2.0]),
                           "start": None if rep % 2 == 0 else {k: v * rng.uniform(0.8, 1.25) for k, v in th.items()}})
+    for rep in range(ctx.n(3, 12)):   # user start values = generating parameters, scale parameters far from 1
+        for cname, th in (("GeneralizedGammaDistribution", {"m": rng.uniform(0.85, 1.0), "c": rng.uniform(1.3, 2.0), "lambda_": rng.uniform(0.09, 0.12)}),
+                          ("WeibullDistribution", {"alpha": rng.uniform(8, 15), "beta": rng.uniform(1.2, 2.5), "gamma": 0.5}),
+                          ("ExponentiatedWeibullDistribution", {"alpha": rng.uniform(0.08, 0.15), "beta": rng.uniform(1.0, 2.0), "delta": rng.uniform(1, 3)}),
+                          ("LogNormalDistribution", {"mu": rng.uniform(2.0, 2.8), "sigma": rng.uniform(0.2, 0.5)})):
+            cases.append({"cls": cname, "theta": th, "n": rng.choice([1000, 3000]), "seed": rng.randrange(10 ** 6), "c": rng.choice([0.5, 2.0]), "start": dict(th)})
     dist = {}
     for c in cases:
         dist[c["cls"]] = dist.get(c["cls"], 0) + 1
@@ -128,6 +177,16 @@ def run(ctx):
             found += 1
             if found >= 6:
                 break
+    for fam, fixed, th in SCIPY_FAMS:
+        for rep in range(ctx.n(1, 4)):
+            case = {"scipydist": True, "family": fam, "fixed": fixed, "theta": th, "n": rng.choice([200, 1000]), "seed": rng.randrange(10 ** 6), "c": rng.choice([0.5, 2.0])}
+            ctx.count(("scipydist", fam, tuple(fixed), case["seed"]), True)
+            try:
+                o = scipy_oracle(fam, fixed, th, case["n"], case["seed"], case["c"])
+            except Exception as e:  # noqa
+                o = ({"cls": "ScipyDistribution", "family": fam, "clause": "exception", "exc": type(e).__name__}, "%s: %s" % (type(e).__name__, e))
+            if o is not None:
+                ctx.violation(o[0], o[1], case)
     ctx.notes.update(notes)
     ctx.notes["input_distribution"] = dist
     ctx.sample(cases[0])
